@@ -21,7 +21,7 @@ from fractions import Fraction
 from pathlib import Path
 
 from .. import tlc, tlaval
-from ..common import Check, VERIF, close, frac, q_tla, unq
+from ..common import Check, VERIF, close, frac, maybe_float, q_tla, unq
 
 D = Decimal
 MC = VERIF / "spec" / "mc"
@@ -170,7 +170,8 @@ class World:
         # arguments are built outside the try block: a harness error must never count as a rejection by the code
         key = self.vkey(ev["vk"]) if "vk" in ev else None
         pos = self.pos[ev["lp"]] if ev.get("lp") else None
-        amt = {k: dec(ev[k]) for k in ("dep", "mint", "rate", "a", "b", "w") if k in ev}
+        # (Decimal | float, as the signatures say: half of the exactly representable amounts go in as floats)
+        amt = {k: (maybe_float(dec(ev[k])) if op != "spend" else dec(ev[k])) for k in ("dep", "mint", "rate", "a", "b", "w") if k in ev}
         if op not in ("odm", "rate", "deposit", "bw", "lpdep", "lpwd", "update", "liq", "spend", "lbuy", "lsell"):
             raise ValueError(op)
         try:
